@@ -333,6 +333,7 @@ func dumpMap(m map[uint32]map[uint32]parser.Position) string {
 
 func runC07(e *emitter, tier string, seed uint64) {
 	r := &rng{s: seed}
+	c07LSP(e)
 	// 1. SourceMap.Add against the model on synthetic add sequences
 	vals := []string{"a", "abc", "é", "日本語", "a\nb", "x\n\ny", "", "f(\n\ta,\n\tb)", "😀", "a\r\nb", "s + \"é\""}
 	na := 400
